@@ -417,8 +417,22 @@ def run(world, inc, lab_dir, disk_dir, t0):
         ctx.finish(code)
     except BaseException:
         tb = traceback.format_exc()
-        et, ev, _ = sys.exc_info()
-        nb.note("exception", type=et.__name__, msg=str(ev)[:500], tb=tb[-3000:], phase=ctx.phase,
+        et, ev, etb = sys.exc_info()
+        site = None
+        try:
+            import nessai as _n
+
+            pkg = os.path.dirname(os.path.abspath(_n.__file__)) + os.sep
+            t = etb
+            while t is not None:
+                fn = os.path.abspath(t.tb_frame.f_code.co_filename)
+                if fn.startswith(pkg):
+                    site = (os.path.relpath(fn, pkg) + ":"
+                            + getattr(t.tb_frame.f_code, "co_qualname", t.tb_frame.f_code.co_name))
+                t = t.tb_next
+        except Exception:
+            pass
+        nb.note("exception", type=et.__name__, msg=str(ev)[:500], tb=tb[-3000:], phase=ctx.phase, site=site,
                 sampling_started=bool(SEAM.sampling_started), constructed=ctx.fs is not None,
                 seam_points=int(SEAM.points), api_points=int(ctx.api_points))
         ctx.finish(EXIT_EXCEPTION)
